@@ -141,6 +141,7 @@ func (ex *Exec) returnGuards(fr *Frame, st *State, blk *ssa.BasicBlock, vals []V
 		goal := ex.specBool(fr, st, g.C)
 		fr.specEnvExtra = save
 		ex.top.oblCount["guard:return"]++
+		ex.top.oblCount[fmt.Sprintf("guardhit:%p", g)]++
 		ex.obligeNamed(st, fmt.Sprintf("%s#guard(return in loop %d)%d", funcKey(ex.top.fn), g.Loop, ex.top.oblCount["guard:return"]), "guard", goal, "every return inside loop "+fmt.Sprint(g.Loop)+": "+g.C.Text, pos)
 	}
 }
@@ -177,6 +178,7 @@ func (ex *Exec) checkGuardsAt(fr *Frame, st *State, kind, name string, pos token
 			delete(fr.specEnvExtra, fmt.Sprintf("arg%d", i))
 		}
 		ex.top.oblCount["guard:"+kind+name]++
+		ex.top.oblCount[fmt.Sprintf("guardhit:%p", g)]++
 		ex.obligeNamed(st, fmt.Sprintf("%s#guard(%s %s)%d", funcKey(ex.top.fn), kind, name, ex.top.oblCount["guard:"+kind+name]), "guard", goal, "guard at every "+kind+" of "+name+": "+g.C.Text, pos)
 	}
 }
@@ -1041,6 +1043,20 @@ func (ex *Exec) builtin(fr *Frame, st *State, b *ssa.Builtin, c *ssa.CallCommon,
 	panic(unsupported("builtin " + b.Name()))
 }
 
+// sprintfTerm: g_sprintf<n>(format, a0, .., a(n-1)) over the boxed arguments read from arr.
+func (ex *Exec) sprintfTerm(format, arr string, n int) string {
+	name := fmt.Sprintf("g_sprintf%d", n)
+	sorts := []string{"Str"}
+	actuals := []string{format}
+	for i := 0; i < n; i++ {
+		sorts = append(sorts, "Dyn")
+		actuals = append(actuals, sx("select", arr, ex.vc.tc.idxLit(int64(i))))
+	}
+	ex.vc.tc.usesDyn = true
+	ex.vc.declareFun(name, "("+strings.Join(sorts, " ")+")", "Str")
+	return sx(name, actuals...)
+}
+
 func (ex *Exec) appendSlices(st *State, s, t Term) Term {
 	vc := ex.vc
 	tc := vc.tc
@@ -1122,6 +1138,16 @@ func (ex *Exec) specialCall(fr *Frame, st *State, callee *ssa.Function, args []V
 		return Term{S: sx("Dyn_other", fmt.Sprint(id), pl), T: callee.Signature.Results().At(0).Type()}, true
 	case "sort.Slice", "sort.SliceStable":
 		return ex.sortSlice(fr, st, c, args, pos), true
+	case "fmt.Sprintf":
+		// assumed: the text is a function of the format and the argument values (none of the repository's
+		// formatted values observes mutable state); nothing else is known about it
+		f := ex.asTerm(args[0], types.Typ[types.String])
+		a := ex.asTerm(args[1], callee.Signature.Params().At(1).Type())
+		arr, n := ex.sliceParts(a)
+		if k, ok := ex.litValue(n); ok {
+			return Term{S: ex.sprintfTerm(f.S, arr, int(k)), T: types.Typ[types.String]}, true
+		}
+		return nil, false
 	}
 	return nil, false
 }
